@@ -155,8 +155,8 @@ Definition ctls_of (acts : list action) : list ctl :=
   flat_map (fun a => match a with ACtl c => [c] | _ => [] end) acts.
 Definition disrs_of (acts : list action) : list disr :=
   flat_map (fun a => match a with ADisr d => [d] | _ => [] end) acts.
-Definition flows_of (acts : list action) : list bytes :=
-  flat_map (fun a => match a with ASkipAfter m => [m] | _ => [] end) acts.
+Definition flows_of (acts : list action) : list flow :=
+  flat_map (fun a => match a with ASkipAfter m => [FAfter m] | ASkip n => [FSkip n] | _ => [] end) acts.
 Fixpoint status_of (acts : list action) (cur : N) : N :=
   match acts with
   | [] => cur
@@ -260,7 +260,7 @@ Definition nonblock (a : action) : bool := negb (is_block a).
 Definition nondisr (a : action) : bool := negb (is_disr a).
 
 Lemma nonblock_keeps a : is_disr a = false -> nonblock a = true.
-Proof. destruct a as [| | |[]| | |]; cbn; congruence. Qed.
+Proof. destruct a as [| | |[]| | | |]; cbn; congruence. Qed.
 Lemma nondisr_keeps a : is_disr a = false -> nondisr a = true.
 Proof. unfold nondisr. intro H; rewrite H; reflexivity. Qed.
 
@@ -813,12 +813,13 @@ Qed.
    the same transaction over the rewritten rule list ================= *)
 
 Definition same_obs (s1 s2 : txst) : Prop :=
-  st_skip s1 = st_skip s2 /\ st_intr s1 = st_intr s2 /\ st_matched s1 = st_matched s2.
+  st_skip s1 = st_skip s2 /\ st_intr s1 = st_intr s2 /\ st_matched s1 = st_matched s2 /\ st_skipn s1 = st_skipn s2.
 
-Definition obs (s : txst) := (st_matched s, st_intr s, st_skip s).
+(* matched rules with data, interruption, pending marker, pending skip counter *)
+Definition obs (s : txst) := (st_matched s, st_intr s, st_skip s, st_skipn s).
 
 Lemma same_obs_obs s1 s2 : same_obs s1 s2 -> obs s1 = obs s2.
-Proof. intros [A [B C]]. unfold obs. rewrite A, B, C. reflexivity. Qed.
+Proof. intros [A [B [C D]]]. unfold obs. rewrite A, B, C, D. reflexivity. Qed.
 
 (* the ctl family never touches skip / interruption / matched rules *)
 Lemma ctl_step_skip rules c s : st_skip (cf_ctl_step rules c s) = st_skip s.
@@ -831,13 +832,17 @@ Lemma ctl_step_matched rules c s : st_matched (cf_ctl_step rules c s) = st_match
 Proof. destruct c as [[n|a b]| | |sp v k| |]; cbn [cf_ctl_step]; try reflexivity;
        try (destruct (a <=? b); reflexivity); destruct (spec_valid sp); reflexivity. Qed.
 
+Lemma ctl_step_skipn rules c s : st_skipn (cf_ctl_step rules c s) = st_skipn s.
+Proof. destruct c as [[n|a b]| | |sp v k| |]; cbn [cf_ctl_step]; try reflexivity;
+       try (destruct (a <=? b); reflexivity); destruct (spec_valid sp); reflexivity. Qed.
+
 Section Sim.
 Variable rx : bytes -> bytes -> bool.
 Variables all1 all2 : list crule.
 Variable RX : txst -> txst -> Prop.     (* relates the exclusion parts only *)
 
-Hypothesis RX_frame : forall s1 s2, RX s1 s2 -> forall k1 i1 m1 k2 i2 m2,
-  RX (mkSt (st_rm s1) (st_rng s1) (st_texc s1) k1 i1 m1) (mkSt (st_rm s2) (st_rng s2) (st_texc s2) k2 i2 m2).
+Hypothesis RX_frame : forall s1 s2, RX s1 s2 -> forall k1 i1 m1 n1 k2 i2 m2 n2,
+  RX (mkSt (st_rm s1) (st_rng s1) (st_texc s1) k1 i1 m1 n1) (mkSt (st_rm s2) (st_rng s2) (st_texc s2) k2 i2 m2 n2).
 Hypothesis RX_ctl : forall c s1 s2, RX s1 s2 -> RX (cf_ctl_step all1 c s1) (cf_ctl_step all2 c s2).
 
 Definition Rel (s1 s2 : txst) : Prop := RX s1 s2 /\ same_obs s1 s2.
@@ -856,8 +861,8 @@ Definition RC (rq : request) (r1 r2 : crule) : Prop :=
 
 Lemma Rel_ctl c s1 s2 : Rel s1 s2 -> Rel (cf_ctl_step all1 c s1) (cf_ctl_step all2 c s2).
 Proof.
-  intros [H [A [B C]]]. split; [apply RX_ctl; exact H|].
-  unfold same_obs. rewrite !ctl_step_skip, !ctl_step_intr, !ctl_step_matched. auto.
+  intros [H [A [B [C D]]]]. split; [apply RX_ctl; exact H|].
+  unfold same_obs. rewrite !ctl_step_skip, !ctl_step_intr, !ctl_step_matched, !ctl_step_skipn. auto.
 Qed.
 
 Lemma Rel_run_nd cs : forall s1 s2, Rel s1 s2 -> Rel (run_nd all1 cs s1) (run_nd all2 cs s2).
@@ -868,12 +873,23 @@ Qed.
 
 Lemma Rel_set_skip m s1 s2 : Rel s1 s2 -> Rel (st_set_skip m s1) (st_set_skip m s2).
 Proof.
-  intros [H [A [B C]]]. split; [apply RX_frame; exact H|]. unfold same_obs, st_set_skip; cbn. auto.
+  intros [H [A [B [C D]]]]. split; [apply RX_frame; exact H|]. unfold same_obs, st_set_skip; cbn. auto.
 Qed.
+
+Lemma Rel_set_skipn n s1 s2 : Rel s1 s2 -> Rel (st_set_skipn n s1) (st_set_skipn n s2).
+Proof.
+  intros [H [A [B [C D]]]]. split; [apply RX_frame; exact H|]. unfold same_obs, st_set_skipn; cbn. auto.
+Qed.
+
+Lemma Rel_end_phase s1 s2 : Rel s1 s2 -> Rel (st_end_phase s1) (st_end_phase s2).
+Proof. intro H. apply Rel_set_skipn, Rel_set_skip, H. Qed.
+
+Lemma Rel_exec_flow f s1 s2 : Rel s1 s2 -> Rel (exec_flow f s1) (exec_flow f s2).
+Proof. intro H. destruct f; cbn [exec_flow]; [apply Rel_set_skip|apply Rel_set_skipn]; exact H. Qed.
 
 Lemma Rel_interrupt i s1 s2 : Rel s1 s2 -> Rel (st_interrupt i s1) (st_interrupt i s2).
 Proof.
-  intros [H [A [B C]]]. unfold st_interrupt. rewrite <- B. destruct (st_intr s1) eqn:E1.
+  intros [H [A [B [C D]]]]. unfold st_interrupt. rewrite <- B. destruct (st_intr s1) eqn:E1.
   - split; [exact H|]. unfold same_obs. rewrite E1. auto.
   - split; [apply RX_frame; exact H|]. unfold same_obs; cbn. auto.
 Qed.
@@ -883,7 +899,7 @@ Proof. intro H. destruct d; cbn [exec_disr]; try exact H; apply Rel_interrupt; e
 
 Lemma Rel_add_match id m s1 s2 : Rel s1 s2 -> Rel (st_add_match id m s1) (st_add_match id m s2).
 Proof.
-  intros [H [A [B C]]]. split; [apply RX_frame; exact H|]. unfold same_obs, st_add_match; cbn. rewrite C. auto.
+  intros [H [A [B [C D]]]]. split; [apply RX_frame; exact H|]. unfold same_obs, st_add_match; cbn. rewrite C. auto.
 Qed.
 
 Lemma Rel_fold_disr id stt ds : forall s1 s2, Rel s1 s2 ->
@@ -891,8 +907,8 @@ Lemma Rel_fold_disr id stt ds : forall s1 s2, Rel s1 s2 ->
 Proof. induction ds as [|d ds IH]; intros s1 s2 H; cbn [fold_left]; [exact H|]. apply IH, Rel_exec_disr, H. Qed.
 
 Lemma Rel_fold_skip ms : forall s1 s2, Rel s1 s2 ->
-  Rel (fold_left (fun s m => st_set_skip m s) ms s1) (fold_left (fun s m => st_set_skip m s) ms s2).
-Proof. induction ms as [|m ms IH]; intros s1 s2 H; cbn [fold_left]; [exact H|]. apply IH, Rel_set_skip, H. Qed.
+  Rel (fold_left (fun s f => exec_flow f s) ms s1) (fold_left (fun s f => exec_flow f s) ms s2).
+Proof. induction ms as [|m ms IH]; intros s1 s2 H; cbn [fold_left]; [exact H|]. apply IH, Rel_exec_flow, H. Qed.
 
 Lemma Rel_eval_chain rq pid ch1 : forall ch2 s1 s2 acc,
   Forall2 (LC rq pid) ch1 ch2 -> Rel s1 s2 ->
@@ -920,9 +936,9 @@ Proof.
   destruct (eval_chain rx all2 (cr_id r1) (cr_chain r2) rq (run_nd all2 (cl_nd (cr_head r2)) s2) (m0 :: ms)) as [t2 o2].
   cbn [fst snd] in K1, K2. subst o2. destruct o1 as [mm|]; [|exact K1].
   rewrite Hd, Hf, Hs.
-  assert (Rel (fold_left (fun s m => st_set_skip m s) (cl_flow (cr_head r2))
+  assert (Rel (fold_left (fun s f => exec_flow f s) (cl_flow (cr_head r2))
                  (fold_left (fun s d => exec_disr (cr_id r1) (cl_status (cr_head r2)) d s) (cl_disr (cr_head r2)) t1))
-              (fold_left (fun s m => st_set_skip m s) (cl_flow (cr_head r2))
+              (fold_left (fun s f => exec_flow f s) (cl_flow (cr_head r2))
                  (fold_left (fun s d => exec_disr (cr_id r1) (cl_status (cr_head r2)) d s) (cl_disr (cr_head r2)) t2))) as K3
     by (apply Rel_fold_skip, Rel_fold_disr, K1).
   destruct (cr_id r1 =? 0); [exact K3|apply Rel_add_match; exact K3].
@@ -934,10 +950,13 @@ Proof.
   intros HC HR. pose proof HC as [Hid [Hph [Hmk [_ [_ [_ [_ [_ Hrm]]]]]]]]. unfold eval_step.
   rewrite <- Hph. destruct (negb (cr_phase r1 =? 0) && negb (cr_phase r1 =? ph)); [exact HR|].
   rewrite <- (Hrm s1 s2 (proj1 HR)). destruct (is_removed s1 (cr_id r1)); [exact HR|].
-  destruct HR as [HX [A [B C]]]. rewrite <- A, <- Hmk.
+  destruct HR as [HX [A [B [C D]]]]. rewrite <- A, <- Hmk, <- D.
+  assert (Rel s1 s2) as HR by (split; [exact HX|unfold same_obs; auto]).
   destruct (negb (bytes_nil (st_skip s1))).
-  - destruct (bytes_eqb (cr_mark r1) (st_skip s1)); [apply Rel_set_skip|]; (split; [exact HX|split; auto]).
-  - apply Rel_eval_rule; [exact HC|]. split; [exact HX|split; auto].
+  - destruct (bytes_eqb (cr_mark r1) (st_skip s1)); [apply Rel_set_skip|]; exact HR.
+  - destruct (0 <? st_skipn s1).
+    + rewrite D. apply Rel_set_skipn; exact HR.
+    + apply Rel_eval_rule; [exact HC|exact HR].
 Qed.
 
 Lemma Rel_eval_list ph rq rs1 : forall rs2 s1 s2,
@@ -1023,8 +1042,8 @@ Definition RXrm (s1 s2 : txst) : Prop :=
   (forall id, is_removed s1 id = P id || is_removed s2 id) /\
   (forall id, P id = false -> texc_for s1 id = texc_for s2 id).
 
-Lemma RXrm_frame : forall s1 s2, RXrm s1 s2 -> forall k1 i1 m1 k2 i2 m2,
-  RXrm (mkSt (st_rm s1) (st_rng s1) (st_texc s1) k1 i1 m1) (mkSt (st_rm s2) (st_rng s2) (st_texc s2) k2 i2 m2).
+Lemma RXrm_frame : forall s1 s2, RXrm s1 s2 -> forall k1 i1 m1 n1 k2 i2 m2 n2,
+  RXrm (mkSt (st_rm s1) (st_rng s1) (st_texc s1) k1 i1 m1 n1) (mkSt (st_rm s2) (st_rng s2) (st_texc s2) k2 i2 m2 n2).
 Proof. intros s1 s2 H; intros. exact H. Qed.
 
 Lemma keep_sel_filter (p : crule -> bool) id : P id = false ->
@@ -1124,7 +1143,7 @@ Theorem ctl_remove_equiv rx all c st rs ph rq :
 Proof.
   intro Hc. apply same_obs_obs. apply (rm_sim_list rx all (rm_set all c) ph rq rs).
   split; [apply rm_ctl_initial; exact Hc|]. unfold same_obs.
-  rewrite ctl_step_skip, ctl_step_intr, ctl_step_matched. auto.
+  rewrite ctl_step_skip, ctl_step_intr, ctl_step_matched, ctl_step_skipn. auto.
 Qed.
 
 (* ================= C17_ctl_equiv, target-exclusion kind ================= *)
@@ -1190,8 +1209,8 @@ Definition RXt (s1 s2 : txst) : Prop :=
   st_rm s1 = st_rm s2 /\ st_rng s1 = st_rng s2 /\
   forall id w k, dyn s1 id w k = (tq id && var_eqb v w && exc_hit rx e k) || dyn s2 id w k.
 
-Lemma RXt_frame : forall s1 s2, RXt s1 s2 -> forall k1 i1 m1 k2 i2 m2,
-  RXt (mkSt (st_rm s1) (st_rng s1) (st_texc s1) k1 i1 m1) (mkSt (st_rm s2) (st_rng s2) (st_texc s2) k2 i2 m2).
+Lemma RXt_frame : forall s1 s2, RXt s1 s2 -> forall k1 i1 m1 n1 k2 i2 m2 n2,
+  RXt (mkSt (st_rm s1) (st_rng s1) (st_texc s1) k1 i1 m1 n1) (mkSt (st_rm s2) (st_rng s2) (st_texc s2) k2 i2 m2 n2).
 Proof. intros s1 s2 H; intros. exact H. Qed.
 
 Lemma rwT_id r : cr_id (rwT r) = cr_id r.
@@ -1332,7 +1351,7 @@ Theorem ctl_target_equiv rx all c st rs ph rq :
 Proof.
   intro Hc. apply same_obs_obs. apply tgt_sim_list.
   split; [apply tgt_ctl_initial; exact Hc|]. unfold same_obs.
-  rewrite ctl_step_skip, ctl_step_intr, ctl_step_matched. auto.
+  rewrite ctl_step_skip, ctl_step_intr, ctl_step_matched, ctl_step_skipn. auto.
 Qed.
 
 (* ================= the ctl rewriting at the source level ================= *)
@@ -1422,12 +1441,16 @@ Proof.
 Qed.
 
 (* ================= the interleaving of disruptive and flow actions is immaterial ================= *)
-Lemma cf_exec_commute id stt d m s :
-  exec_disr id stt d (st_set_skip m s) = st_set_skip m (exec_disr id stt d s).
+Lemma cf_exec_commute id stt d f s :
+  exec_disr id stt d (exec_flow f s) = exec_flow f (exec_disr id stt d s).
 Proof.
-  destruct d; cbn [exec_disr]; try reflexivity; unfold st_interrupt, st_set_skip; cbn [st_intr];
+  destruct f, d; cbn [exec_disr exec_flow]; try reflexivity; unfold st_interrupt, st_set_skip, st_set_skipn; cbn [st_intr];
     destruct (st_intr s) eqn:E; cbn; rewrite ?E; reflexivity.
 Qed.
+
+(* skipAfter and skip write different fields *)
+Lemma cf_flow_commute m n s : exec_flow (FAfter m) (exec_flow (FSkip n) s) = exec_flow (FSkip n) (exec_flow (FAfter m) s).
+Proof. reflexivity. Qed.
 
 (* ================= what an update with an exclusion means for the selection ================= *)
 (* after "!V:key" has been written into a rule (configuration time or ctl), no entry of V whose
@@ -1562,13 +1585,13 @@ Proof.
   set (P := rm_set all c).
   assert (Rel (RXrm P) (cf_ctl_step all c st) st) as H0.
   { split; [apply rm_ctl_initial; exact Hc|]. unfold same_obs.
-    rewrite ctl_step_skip, ctl_step_intr, ctl_step_matched. auto. }
-  pose proof (Rel_set_skip (RXrm P) (RXrm_frame P) [] _ _ (rm_sim_list rx all P ph rq rs _ _ H0)) as H1.
-  revert H1. generalize (st_set_skip [] (eval_list rx all rs ph rq (cf_ctl_step all c st))).
-  generalize (st_set_skip [] (eval_list rx (allP all P) (filter (keepP P) rs) ph rq st)).
+    rewrite ctl_step_skip, ctl_step_intr, ctl_step_matched, ctl_step_skipn. auto. }
+  pose proof (Rel_end_phase (RXrm P) (RXrm_frame P) _ _ (rm_sim_list rx all P ph rq rs _ _ H0)) as H1.
+  revert H1. generalize (st_end_phase (eval_list rx all rs ph rq (cf_ctl_step all c st))).
+  generalize (st_end_phase (eval_list rx (allP all P) (filter (keepP P) rs) ph rq st)).
   induction phs as [|p phs IH]; intros s2 s1 H; cbn [fold_left]; [exact (proj2 H)|].
   apply IH. pose proof H as [_ [_ [B _]]]. rewrite <- B. destruct (st_intr s1); [exact H|].
-  unfold eval_phase. apply (Rel_set_skip (RXrm P) (RXrm_frame P)).
+  unfold eval_phase. apply (Rel_end_phase (RXrm P) (RXrm_frame P)).
   apply (rm_sim_list rx all P p rq all). exact H.
 Qed.
 
@@ -1582,14 +1605,14 @@ Proof.
   set (ids := tgt_ids all c). set (v := tgt_var c). set (e := tgt_exc c).
   assert (Rel (RXt rx ids v e) (cf_ctl_step all c st) st) as H0.
   { split; [apply tgt_ctl_initial; exact Hc|]. unfold same_obs.
-    rewrite ctl_step_skip, ctl_step_intr, ctl_step_matched. auto. }
-  pose proof (Rel_set_skip (RXt rx ids v e) (RXt_frame rx ids v e) [] _ _
+    rewrite ctl_step_skip, ctl_step_intr, ctl_step_matched, ctl_step_skipn. auto. }
+  pose proof (Rel_end_phase (RXt rx ids v e) (RXt_frame rx ids v e) _ _
                 (tgt_sim_list rx all ids v e ph rq rs _ _ H0)) as H1.
-  revert H1. generalize (st_set_skip [] (eval_list rx all rs ph rq (cf_ctl_step all c st))).
-  generalize (st_set_skip [] (eval_list rx (allT all ids v e) (map (rwT ids v e) rs) ph rq st)).
+  revert H1. generalize (st_end_phase (eval_list rx all rs ph rq (cf_ctl_step all c st))).
+  generalize (st_end_phase (eval_list rx (allT all ids v e) (map (rwT ids v e) rs) ph rq st)).
   induction phs as [|p phs IH]; intros s2 s1 H; cbn [fold_left]; [exact (proj2 H)|].
   apply IH. pose proof H as [_ [_ [B _]]]. rewrite <- B. destruct (st_intr s1); [exact H|].
-  unfold eval_phase. apply (Rel_set_skip (RXt rx ids v e) (RXt_frame rx ids v e)).
+  unfold eval_phase. apply (Rel_end_phase (RXt rx ids v e) (RXt_frame rx ids v e)).
   apply (tgt_sim_list rx all ids v e p rq all). exact H.
 Qed.
 
@@ -1629,3 +1652,17 @@ Proof.
   eexists. eexists. split; [vm_compute; reflexivity|]. split; [reflexivity|].
   split; [vm_compute; reflexivity|]. vm_compute. reflexivity.
 Qed.
+
+(* skip:N with a run-time removed rule inside its window: the removed rule does not count *)
+Definition wsk_src : list item_src :=
+  [ SRule 10 1 (w_link VMethod OAlways [ADisr DPass; ACtl (CRmId (IdOne 30))]) [];
+    SRule 20 1 (w_link VMethod OAlways [ADisr DPass; ASkip 2]) [];
+    SRule 30 1 (w_link VMethod OAlways [ADisr DPass]) [];
+    SRule 40 1 (w_link VMethod OAlways [ADisr DPass]) [];
+    SRule 50 1 (w_link VMethod OAlways [ADisr DPass]) [];
+    SRule 60 1 (w_link VMethod OAlways [ADisr DPass]) [] ].
+
+Example skip_window_instance :
+  exists c, cf_compile w_dflt wsk_src = Some c /\
+    map fst (fst (cf_outcome simple_rx c w_req)) = [10; 20; 60].
+Proof. eexists. split; [vm_compute; reflexivity|]. vm_compute. reflexivity. Qed.
